@@ -43,7 +43,7 @@ impl Sandbox {
         std::fs::write(&spec_path, serde_json::to_vec(&spec).unwrap()).unwrap();
         let exe = std::env::current_exe().unwrap();
         // children that prove run side by side with other children: bound their rayon pools
-        let status = Command::new(exe).arg("child").arg(&spec_path).env("RAYON_NUM_THREADS", std::env::var("VERIF_CHILD_THREADS").unwrap_or_else(|_| "4".into())).status().expect("cannot spawn child");
+        let status = Command::new(exe).arg("child").arg(&spec_path).env("RAYON_NUM_THREADS", if spec.rayon_threads > 0 { spec.rayon_threads.to_string() } else { "4".into() }).status().expect("cannot spawn child");
         let result: Option<ChildResult> = std::fs::read(&out_path).ok().and_then(|b| serde_json::from_slice(&b).ok());
         let _ = std::fs::remove_file(&spec_path);
         let _ = std::fs::remove_file(&out_path);
